@@ -63,7 +63,11 @@ PROPS = {
                             'save/load contracts); the composition over the whole run is covered by the bounded search only']},
     'C09': {'scans': [], 'trusted': [], 'bounded': [], 'not_claimed': []},
     'C18': {'scans': ['user_code_runs_in_scope', 'hooks_run_in_scope'], 'trusted': [], 'bounded': [], 'not_claimed': []},
-    'C02': {'scans': [], 'trusted': [], 'bounded': [], 'not_claimed': []},
+    'C02': {'scans': [], 'trusted': [],
+            'bounded': [{'name': 'control_history_search', 'recipe': 'control_histories', 'args': {'claims': ['C02']},
+                         'functions': 'outcome reports of a process killed inside a step (deferred kill path through Process.step)',
+                         'bound': '407 control-request histories (see C04): the recorded kill text is the text given to kill()'}],
+            'not_claimed': []},
     'C03': {'scans': [], 'trusted': [],
             'bounded': [{'name': 'failure_injection_search', 'recipe': 'failure_injection',
                          'functions': 'where a user exception ends up (transition_to / transition_failed / Process.step / callback_excepted / '
@@ -90,8 +94,19 @@ PROPS = {
                                   '{pause, play, kill, resume} at 4 points (created, paused at a boundary, inside the running step, inside the '
                                   'waiting step): 407 histories'}],
             'not_claimed': []},
-    'C01': {'scans': ['allowed_subset_graph', 'state_written_only_by_the_machine'], 'trusted': [], 'bounded': [], 'not_claimed': []},
-    'C14': {'scans': [], 'trusted': [], 'bounded': [], 'not_claimed': []},
+    'C01': {'scans': ['allowed_subset_graph', 'state_written_only_by_the_machine'], 'trusted': [],
+            'bounded': [{'name': 'control_history_search', 'recipe': 'control_histories', 'args': {'claims': ['C01']},
+                         'functions': 'Process.step over control-request histories (terminal states are final while the stepping task is parked)',
+                         'bound': '407 control-request histories (see C04): no step function runs and the state does not change after kill() returned True'}],
+            'not_claimed': []},
+    'C14': {'scans': [], 'trusted': [],
+            'bounded': [{'name': 'pickle_vs_memory_vs_map', 'recipe': 'persister_history',
+                         'functions': 'PicklePersister.* (file system, pickle, fnmatch: outside the verifier) and its equivalence with '
+                                      'InMemoryPersister',
+                         'bound': '2 id families whose text forms are prefixes of one another ([1,12,120,2], [job,job2,x]) x a 13-operation '
+                                  'history (save / delete / delete absent / delete twice / delete_process), listing, per-process listing and 3 '
+                                  'loads compared with the abstract map after every operation'}],
+            'not_claimed': ['PicklePersister is covered by the bounded comparison only']},
     'C20': {'scans': [], 'trusted': [], 'bounded': [], 'not_claimed': []},
     'C15': {'scans': [], 'trusted': [], 'bounded': [], 'not_claimed': []},
     'C19': {'scans': [], 'trusted': [],
